@@ -14,10 +14,9 @@
    4-5 the member loops; strings in any segmentation (octet_string_item, bit_string_item);
    6-7 the fragment of types (frag) and one lemma per base type (the item_ lemmas);
    9-10 tag maps of component lists; SET in any order; SEQUENCE with OPTIONAL / DEFAULT;
-   11  the induction (all_items) and the theorems ber_all_forms_tree, ber_all_forms, ber_all_forms_no_bits.
+   11  the induction (all_items) and the theorems ber_all_forms_tree, ber_all_forms, ber_all_forms_unconditional.
 
-   Side conditions (see section 11): no_empty_constructed_bits (library defect: 23 00 refused),
-   real_mantissas_present, ascii_strings_ascii.  Outside the fragment: CHOICE, ANY, character strings
+   Side conditions (see section 11): real_mantissas_present, ascii_strings_ascii.  Outside the fragment: CHOICE, ANY, character strings
    whose repertoire the model does not decide (UniversalString, BMPString), EXPLICIT UNIVERSAL tags. *)
 From Coq Require Import Lia.
 From PV Require Import Base.Bytes Model.Tag Model.TableTypes Model.Types Model.Proc Model.Enc Model.Dec Gen.Tables Spec.X690
@@ -1600,14 +1599,13 @@ Qed.
 
 (* ---------- BIT STRING: any segmentation (8.6.4) ---------- *)
 
-(* SIDE CONDITION (library defect, see bits_refuted_empty_constructed_bits below): the decoder refuses a
-   definite-length constructed BIT STRING without segments (23 00).  [safe L n]: no definite-length
-   constructed node without members carries one of the (class, number) pairs of L. *)
+(* [safe L n]: the side conditions of the final theorems as a predicate on the TLV tree, relative to a
+   list L of marked (class, number) pairs (REAL mantissas, ASCII repertoires). *)
 Definition is_nil {A} (l: list A) : bool := match l with [] => true | _ => false end.
-(* marked (class, number) pairs: KB = a BIT STRING may be carried under it, KR = a REAL, KA = a character
+(* marked (class, number) pairs: KR = a REAL may be carried under it, KA = a character
    string whose repertoire the library checks (ASCII) *)
-Inductive kind := KB | KR | KA.
-Definition kind_eqb (a b: kind) : bool := match a, b with KB, KB | KR, KR | KA, KA => true | _, _ => false end.
+Inductive kind := KR | KA.
+Definition kind_eqb (a b: kind) : bool := match a, b with KR, KR | KA, KA => true | _, _ => false end.
 Definition mkey : Type := (kind * (tclass * N))%type.
 Definition mkey_eqb (a b: mkey) : bool := kind_eqb (fst a) (fst b) && tag_pair_eqb (snd a) (snd b).
 Definition memk (k: mkey) (L: list mkey) : bool := existsb (mkey_eqb k) L.
@@ -1622,8 +1620,7 @@ Fixpoint safe (L: list mkey) (n: node) : bool :=
   | Prim c num contents _ =>
       (negb (memk (KR, (c, num)) L) || real_mant_ok contents) && (negb (memk (KA, (c, num)) L) || ascii contents)
   | Cons c num indef kids _ =>
-      negb (negb indef && is_nil kids && memk (KB, (c, num)) L)
-      && (negb (memk (KA, (c, num)) L) || forallb leaves_ascii kids)
+      (negb (memk (KA, (c, num)) L) || forallb leaves_ascii kids)
       && forallb (safe L) kids
   end.
 
@@ -1686,14 +1683,11 @@ Section BitsValue.
 
   Lemma bits_def_value parts bss :
     tag0_simple ts = false -> Forall2 (bseg (dec_call BER f) false) parts bss -> (length parts < f)%nat ->
-    length (concat parts) <> 0%nat ->
     consumes (dec_bits (dec_call BER f) f fl (Some T0) ts (N.of_nat (length (concat parts))) false) (concat parts)
              (DV T0 (VBits (concat bss))).
   Proof.
-    intros Hts HF Hlf Hne s tl Hav. unfold dec_bits.
-    (* written so as to survive the planned move of the zero-length test into the primitive branch *)
-    assert (Hz: N.eqb (N.of_nat (length (concat parts))) 0 = false) by (apply N.eqb_neq; lia).
-    rewrite ?Hz, Hts, ?Hz, Hfl. cbn [negb]. rewrite resume_tell.
+    intros Hts HF Hlf s tl Hav. unfold dec_bits.
+    rewrite Hts, Hfl. cbn [negb]. rewrite resume_tell.
     destruct (bits_loop_run (dec_call BER f) (Some T0) ts parts bss HF f [] (pos s) (length (concat parts)) s tl Hlf Hav
                 ltac:(lia) ltac:(lia)) as (s' & Hrun & _ & Hpos & Harr & Hcl).
     rewrite Hrun. cbn [app]. rewrite create_bits. cbn [resume]. exists s'. repeat split; assumption.
@@ -1739,14 +1733,12 @@ Proof.
 Qed.
 
 (* Stage 4b: a BIT STRING in any segmentation is read to the bits the reference joins *)
-Theorem bit_string_item : forall L, memk (KB, (Univ, 3)) L = true ->
-  forall n fuel l bs f allow,
-  nok f n -> (allow = true -> eoc_start (node_raw n) = false) -> safe L n = true ->
+Theorem bit_string_item : forall n fuel l bs f allow,
+  nok f n -> (allow = true -> eoc_start (node_raw n) = false) ->
   bit_segments fuel n = Some l -> join_bit_segments l = Some bs ->
   consumes (dec_call BER (S f) (STy TBits) [] None allow false) (node_raw n) (DV TBits (VBits bs)).
 Proof.
-  intros L HL.
-  induction n as [c num contents raw|c num indef kids raw IH] using node_ind'; intros fuel l bs f allow Hok Heoc Hsafe Hseg Hjoin.
+  induction n as [c num contents raw|c num indef kids raw IH] using node_ind'; intros fuel l bs f allow Hok Heoc Hseg Hjoin.
   - destruct (bit_segments_inv _ _ _ Hseg) as [(u & c0 & raw0 & E & Hu & ->)|(i & kids & raw0 & ls & fuel' & E & _)]; [|discriminate E].
     inversion E; subst c num contents raw0. destruct Hok as (Hsh & Ho & Hfit).
     apply (item_of_value f TBits [] _ allow false _ DcBits (mkDecFlags true (Some KBits)) Hsh Hfit Heoc); try reflexivity.
@@ -1758,36 +1750,33 @@ Proof.
     destruct Hok as (Hsh & Ho & Hfit).
     destruct (join_concat _ _ Hjoin) as (bss & HJ & ->).
     apply (item_of_value (S (S f')) TBits [] _ allow false _ DcBits (mkDecFlags true (Some KBits)) Hsh Hfit Heoc); try reflexivity.
-    pose proof (safe_kids _ _ _ _ _ _ Hsafe) as Hsk.
     assert (HF: Forall2 (bseg (dec_call BER (S (S f'))) indef) (map node_raw kids) bss).
     { pose proof (opt_all_Forall2 _ _ _ Hall) as H1.
-      clear Hseg Hall Hjoin Hsh Ho Hfit Heoc Hsafe Hcnt.
+      clear Hseg Hall Hjoin Hsh Ho Hfit Heoc Hcnt.
       revert bss HJ. induction H1 as [|k lk kids ls Hk H1 IH1]; intros bss HJ.
       - inversion HJ. constructor.
       - inversion HJ as [|? bk ? bss' Hjk HJ']; subst.
         inversion IH as [|? ? IHk IHr]; subst. inversion Hkids as [|? ? (Hnk & Hke & Hkl) Hkr]; subst.
-        inversion Hsk as [|? ? Hsk1 Hskr]; subst.
         cbn [map]. constructor; [|apply IH1; assumption].
         split; [|exact Hkl].
-        apply (IHk fuel' lk bk (S f') indef (nok_mono _ _ _ Hnk (Nat.le_succ_diag_r f')) Hke Hsk1 Hk Hjk). }
+        apply (IHk fuel' lk bk (S f') indef (nok_mono _ _ _ Hnk (Nat.le_succ_diag_r f')) Hke Hk Hjk). }
     cbn [node_len node_body node_wire dec_value]. unfold kids_raw.
     rewrite <- (map_length node_raw kids) in Hcnt.
     destruct indef.
     + apply (bits_indef_value (S (S f')) TBits _ (S f') _ _ eq_refl HF). lia.
     + rewrite app_nil_r.
-      apply (bits_def_value (S (S f')) TBits (mkDecFlags true (Some KBits)) [mkTag Univ true 3] eq_refl _ _ eq_refl HF); [lia|].
-      fold (kids_raw kids). apply kids_raw_nonempty.
-      * apply Forall_forall. intros k Hk. rewrite Forall_forall in Hkids. apply (Hkids k Hk).
-      * intros ->. cbn [safe negb is_nil andb] in Hsafe. rewrite HL in Hsafe. discriminate Hsafe.
+      apply (bits_def_value (S (S f')) TBits (mkDecFlags true (Some KBits)) [mkTag Univ true 3] eq_refl _ _ eq_refl HF). lia.
 Qed.
 
-(* the defect that makes the side condition necessary *)
-Example bits_refuted_empty_constructed_bits :
+(* formerly a defect of the library (23 00 was refused), repaired: a constructed BIT STRING without
+   segments, also nested, is the empty bit string, in the definite as in the indefinite form *)
+Example bits_empty_constructed_bits :
   X690.read TBits [35; 0] = Some (ABits [], [])
-  /\ decode BER (Some TBits) [35; 0] = Err EMalformed
+  /\ decode BER (Some TBits) [35; 0] = Ok (DV TBits (VBits []), [])
   /\ decode BER (Some TBits) [35; 128; 0; 0] = Ok (DV TBits (VBits []), [])
   /\ X690.read TBits [35; 128; 35; 0; 3; 2; 1; 254; 0; 0] = Some (ABits [true; true; true; true; true; true; true], [])
-  /\ decode BER (Some TBits) [35; 128; 35; 0; 3; 2; 1; 254; 0; 0] = Err EMalformed.
+  /\ decode BER (Some TBits) [35; 128; 35; 0; 3; 2; 1; 254; 0; 0]
+     = Ok (DV TBits (VBits [true; true; true; true; true; true; true]), []).
 Proof. vm_compute. repeat split. Qed.
 
 (* ====================================================================== *)
@@ -1822,7 +1811,6 @@ Fixpoint frag (T: ty) : bool :=
 (* the marked (class, number) pairs under which a BIT STRING / a REAL can appear in an encoding of T *)
 Fixpoint side_keys (T: ty) (e: option (tclass * N)) : list mkey :=
   match T with
-  | TBits => [(KB, (Univ, 3)); (KB, orkey e (Univ, 3))]
   | TReal => [(KR, orkey e (Univ, 9))]
   | TStr n => if ascii_str n then [(KA, orkey e (Univ, n))] else []
   | TImp t x => side_keys x (Some (orkey e (key t)))
@@ -2184,7 +2172,7 @@ Proof.
   intros Hs Hm. destruct n as [c num contents raw|c num indef kids raw]; unfold key in Hm; cbn [node_wire tcls tnum] in Hm;
     cbn [safe leaves_ascii] in *; rewrite Hm in Hs; cbn [negb orb] in Hs.
   - apply andb_true_iff in Hs. tauto.
-  - apply andb_true_iff in Hs. destruct Hs as [Hs _]. apply andb_true_iff in Hs. tauto.
+  - apply andb_true_iff in Hs. tauto.
 Qed.
 
 Lemma item_str u : (latin1 u || ascii_str u)%bool = true -> item_ok (TStr u).
@@ -2211,8 +2199,6 @@ Proof.
   intros sp T0 acc e n a f allow L Hsp Htb Hbase Hkeys He Hok Heoc Hsafe HL Hint.
   destruct (interp_bits _ _ _ Hint) as (l & bs & Hsame & Hseg & Hjoin & ->).
   exists (VBits bs). split; [|reflexivity].
-  assert (HL3: memk (KB, (Univ, 3)) L = true) by (apply HL; left; reflexivity).
-  assert (HLe: memk (KB, orkey e (Univ, 3)) L = true) by (apply HL; right; left; reflexivity).
   apply (base_item sp T0 acc e (Univ, 3) _ f allow DcBits (mkDecFlags true (Some KBits)) _ Hsp Htb); try assumption.
   - rewrite Hbase. reflexivity.
   - destruct n as [c num contents raw|c num indef kids raw]; cbn [as_univ] in Hseg.
@@ -2224,7 +2210,6 @@ Proof.
       inversion E; subst i kids0 raw0. clear E.
       destruct (nok_kids _ _ _ _ _ _ Hok) as (f' & -> & Hcnt & Hkids).
       destruct (join_concat _ _ Hjoin) as (bss & HJ & ->).
-      pose proof (safe_kids _ _ _ _ _ _ Hsafe) as Hsk.
       assert (HF: Forall2 (bseg (dec_call BER (S (S f'))) indef) (map node_raw kids) bss).
       { pose proof (opt_all_Forall2 _ _ _ Hall) as H1.
         clear Hseg Hall Hjoin Hok Heoc Hsafe Hcnt Hint Hsame.
@@ -2232,20 +2217,15 @@ Proof.
         - inversion HJ. constructor.
         - inversion HJ as [|? bk ? bss' Hjk HJ']; subst.
           inversion Hkids as [|? ? (Hnk & Hke & Hkl) Hkr]; subst.
-          inversion Hsk as [|? ? Hsk1 Hskr]; subst.
           cbn [map]. constructor; [|apply IH1; assumption].
           split; [|exact Hkl].
-          apply (bit_string_item L HL3 k fuel' lk bk (S f') indef (nok_mono _ _ _ Hnk (Nat.le_succ_diag_r f')) Hke Hsk1 Hk Hjk). }
+          apply (bit_string_item k fuel' lk bk (S f') indef (nok_mono _ _ _ Hnk (Nat.le_succ_diag_r f')) Hke Hk Hjk). }
       cbn [node_len node_body node_wire dec_value]. unfold kids_raw.
       rewrite <- (map_length node_raw kids) in Hcnt.
       destruct indef.
       * apply (bits_indef_value (S (S f')) T0 _ (S f') _ _ eq_refl HF). lia.
       * rewrite app_nil_r.
-        apply (bits_def_value (S (S f')) T0 (mkDecFlags true (Some KBits)) (mkTag c true num :: acc) eq_refl _ _ eq_refl HF); [lia|].
-        fold (kids_raw kids). apply kids_raw_nonempty.
-        -- apply Forall_forall. intros k Hk. rewrite Forall_forall in Hkids. apply (Hkids k Hk).
-        -- intros ->. cbn [safe negb is_nil andb] in Hsafe.
-           apply same_tag_key in Hsame. unfold key in Hsame. cbn [node_wire tcls tnum] in Hsame. rewrite Hsame, HLe in Hsafe. discriminate Hsafe.
+        apply (bits_def_value (S (S f')) T0 (mkDecFlags true (Some KBits)) (mkTag c true num :: acc) eq_refl _ _ eq_refl HF). lia.
 Qed.
 
 (* ---------- tagging ---------- *)
@@ -3460,32 +3440,25 @@ Proof.
   replace (kind_eqb q q0) with false by (destruct q, q0, q'; try reflexivity; try discriminate E; congruence). reflexivity.
 Qed.
 
-(* SIDE CONDITION 1, to drop once the library accepts 23 00: no definite-length constructed node without
-   members under a (class, number) a BIT STRING of T can carry *)
-Definition no_empty_constructed_bits (T: ty) (n: node) : bool := safe (of_kind KB (side_keys T None)) n.
-(* SIDE CONDITION 2: every primitive node under a (class, number) a REAL of T can carry has, if it is a
+(* SIDE CONDITION 1: every primitive node under a (class, number) a REAL of T can carry has, if it is a
    binary encoding, at least one mantissa octet *)
 Definition real_mantissas_present (T: ty) (n: node) : bool := safe (of_kind KR (side_keys T None)) n.
-(* SIDE CONDITION 3: under a (class, number) that a character string of T with an ASCII repertoire
+(* SIDE CONDITION 2: under a (class, number) that a character string of T with an ASCII repertoire
    (NumericString, PrintableString, IA5String, VisibleString, the time types, UTF8String) can carry,
    every octet of every primitive leaf is below 128 (the library checks the repertoire, X.690 does not) *)
 Definition ascii_strings_ascii (T: ty) (n: node) : bool := safe (of_kind KA (side_keys T None)) n.
 
-Lemma safe_split L : forall n, safe (of_kind KB L) n = true -> safe (of_kind KR L) n = true -> safe (of_kind KA L) n = true ->
-  safe L n = true.
+Lemma safe_split L : forall n, safe (of_kind KR L) n = true -> safe (of_kind KA L) n = true -> safe L n = true.
 Proof.
-  induction n as [c num contents raw|c num indef kids raw IH] using node_ind'; intros H1 H2 H3.
+  induction n as [c num contents raw|c num indef kids raw IH] using node_ind'; intros H2 H3.
   - cbn [safe] in *. rewrite memk_of_kind in H2, H3.
     rewrite (memk_other_kind KA KR) in H2 by discriminate. rewrite (memk_other_kind KR KA) in H3 by discriminate.
     cbn [negb orb andb] in H2, H3. rewrite andb_true_r in H2. rewrite H2, H3. reflexivity.
-  - cbn [safe] in *. rewrite memk_of_kind in H1, H3.
-    rewrite (memk_other_kind KA KB) in H1 by discriminate. rewrite (memk_other_kind KB KA) in H3 by discriminate.
-    cbn [negb orb andb] in H1, H3. rewrite !andb_false_r in H3. cbn [negb andb] in H3.
-    apply andb_true_iff in H1. destruct H1 as [H1a H1b]. rewrite andb_true_r in H1a.
+  - cbn [safe] in *. rewrite memk_of_kind in H3.
     apply andb_true_iff in H2. destruct H2 as [_ H2b].
     apply andb_true_iff in H3. destruct H3 as [H3a H3b].
-    rewrite H1a, H3a. cbn [andb]. apply forallb_forall. intros k Hk. rewrite Forall_forall in IH.
-    rewrite forallb_forall in H1b, H2b, H3b. apply (IH k Hk (H1b k Hk) (H2b k Hk) (H3b k Hk)).
+    rewrite H3a. cbn [andb]. apply forallb_forall. intros k Hk. rewrite Forall_forall in IH.
+    rewrite forallb_forall in H2b, H3b. apply (IH k Hk (H2b k Hk) (H3b k Hk)).
 Qed.
 
 (* C09, tree form: whatever TLV tree the reference parses off the front of b and interprets under T as
@@ -3494,11 +3467,11 @@ Qed.
 Theorem ber_all_forms_tree : forall T b n a tl,
   frag T = true -> wf_bytes b = true -> N.of_nat (length b) <= index_max ->
   parse b = Some (n, tl) -> interp T None n = Some a ->
-  no_empty_constructed_bits T n = true -> real_mantissas_present T n = true -> ascii_strings_ascii T n = true ->
+  real_mantissas_present T n = true -> ascii_strings_ascii T n = true ->
   exists v, decode BER (Some T) b = Ok (DV T v, tl) /\ abs T v = a.
 Proof.
-  intros T b n a tl Hfr Hwf Hmax Hparse Hint Hsafe1 Hsafe2 Hsafe3.
-  pose proof (safe_split (side_keys T None) n Hsafe1 Hsafe2 Hsafe3) as Hsafe.
+  intros T b n a tl Hfr Hwf Hmax Hparse Hint Hsafe2 Hsafe3.
+  pose proof (safe_split (side_keys T None) n Hsafe2 Hsafe3) as Hsafe.
   pose proof (wf_bytes_octs b Hwf) as Hb.
   destruct (parse_shape b n tl Hb Hparse) as [Hsh Eb].
   destruct (frag_facts T Hfr) as [Hw Htb].
@@ -3522,33 +3495,32 @@ Qed.
 Theorem ber_all_forms : forall T b a tl,
   frag T = true -> wf_bytes b = true -> N.of_nat (length b) <= index_max ->
   X690.read T b = Some (a, tl) ->
-  (forall n r, parse b = Some (n, r) ->
-     no_empty_constructed_bits T n = true /\ real_mantissas_present T n = true /\ ascii_strings_ascii T n = true) ->
+  (forall n r, parse b = Some (n, r) -> real_mantissas_present T n = true /\ ascii_strings_ascii T n = true) ->
   exists v, decode BER (Some T) b = Ok (DV T v, tl) /\ abs T v = a.
 Proof.
   intros T b a tl Hfr Hwf Hmax Hread Hsafe. unfold X690.read in Hread.
   destruct (parse b) as [[n rest]|] eqn:Hp; [|discriminate Hread].
   destruct (interp T None n) as [a'|] eqn:Hi; [|discriminate Hread]. cbn [opt_bind] in Hread.
   inversion Hread; subst a' rest.
-  destruct (Hsafe n tl eq_refl) as (H1 & H2 & H3).
-  apply (ber_all_forms_tree T b n a tl Hfr Hwf Hmax Hp Hi H1 H2 H3).
+  destruct (Hsafe n tl eq_refl) as (H2 & H3).
+  apply (ber_all_forms_tree T b n a tl Hfr Hwf Hmax Hp Hi H2 H3).
 Qed.
 
-(* types in which no BIT STRING, REAL or ASCII-repertoire string occurs need no side condition *)
+(* types in which no REAL and no ASCII-repertoire string occurs need no side condition *)
 Lemma safe_nil : forall n, safe [] n = true.
 Proof.
   induction n as [c num contents raw|c num indef kids raw IH] using node_ind'; [reflexivity|].
-  cbn [safe memk existsb]. rewrite andb_false_r. cbn [negb andb orb]. apply forallb_forall. intros k Hk.
+  cbn [safe memk existsb]. cbn [negb andb orb]. apply forallb_forall. intros k Hk.
   rewrite Forall_forall in IH. apply IH. exact Hk.
 Qed.
 
-Theorem ber_all_forms_no_bits : forall T b a tl,
+Theorem ber_all_forms_unconditional : forall T b a tl,
   frag T = true -> side_keys T None = [] -> wf_bytes b = true -> N.of_nat (length b) <= index_max ->
   X690.read T b = Some (a, tl) ->
   exists v, decode BER (Some T) b = Ok (DV T v, tl) /\ abs T v = a.
 Proof.
   intros T b a tl Hfr Hnb Hwf Hmax Hread. apply (ber_all_forms T b a tl Hfr Hwf Hmax Hread).
-  intros n r _. unfold no_empty_constructed_bits, real_mantissas_present, ascii_strings_ascii. rewrite Hnb.
+  intros n r _. unfold real_mantissas_present, ascii_strings_ascii. rewrite Hnb.
   unfold of_kind. cbn [filter]. repeat split; apply safe_nil.
 Qed.
 
@@ -3573,8 +3545,7 @@ Example ber_all_forms_nonvacuous :
   /\ X690.read ex_T ex_b
      = Some (ARec [Some (AInt 5); None; Some (ABool true); Some (ABits ex_bits); Some (AList [AOcts [200]]);
                    Some (ARec [Some (ABool true); Some (AOid [1; 2; 3]); Some (AInt 7); Some (AReal (ABin 5 (-1)))])], [9; 9])
-  /\ (forall n r, parse ex_b = Some (n, r) ->
-        no_empty_constructed_bits ex_T n = true /\ real_mantissas_present ex_T n = true /\ ascii_strings_ascii ex_T n = true)
+  /\ (forall n r, parse ex_b = Some (n, r) -> real_mantissas_present ex_T n = true /\ ascii_strings_ascii ex_T n = true)
   /\ decode BER (Some ex_T) ex_b
      = Ok (DV ex_T (VRec [Some (VInt 5); None; None; Some (VBits ex_bits); Some (VList [VOcts [200]]);
                           Some (VRec [Some (VBool true); Some (VOid [1; 2; 3]); None; Some (VReal (RBin 5 (-1)))])]), [9; 9]).
@@ -3585,10 +3556,10 @@ Proof.
   revert H. destruct (parse ex_b) as [[n0 r0]|] eqn:Hp; [|congruence].
   intros H. inversion H; subst n0 r0. clear H E.
   assert (Hc: match parse ex_b with
-              | Some (n1, _) => no_empty_constructed_bits ex_T n1 && (real_mantissas_present ex_T n1 && ascii_strings_ascii ex_T n1)
+              | Some (n1, _) => real_mantissas_present ex_T n1 && ascii_strings_ascii ex_T n1
               | None => false end = true)
     by (vm_compute; reflexivity).
-  rewrite Hp in Hc. apply andb_true_iff in Hc. destruct Hc as [H1 H2]. apply andb_true_iff in H2. tauto.
+  rewrite Hp in Hc. apply andb_true_iff in Hc. exact Hc.
 Qed.
 
 (* the second side condition is needed as the reference stands *)
@@ -3613,5 +3584,8 @@ Print Assumptions bit_string_item.
 Print Assumptions all_items.
 Print Assumptions ber_all_forms_tree.
 Print Assumptions ber_all_forms.
-Print Assumptions ber_all_forms_no_bits.
+Print Assumptions ber_all_forms_unconditional.
+
+(* former name *)
+Definition ber_all_forms_no_bits := ber_all_forms_unconditional.
 
